@@ -158,7 +158,7 @@ func c04World(t *testing.T, p c04Params) rt.Result {
 		hseq := map[int]int{}
 		ps.Cfg.OnUpdate = func(s *hz.Session, idx int, body []byte) *corebgp.Notification {
 			r := rand.New(rand.NewPCG(p.Seed, uint64(s.Epoch)*1000+uint64(idx)+5000))
-			if p.Seed%2 == 0 {
+			if mix(p.Seed)%2 == 0 {
 				time.Sleep(2 * time.Microsecond) // the handler takes a moment before it answers
 			}
 			st.write(w, s.Writer, s.Epoch, widHandler, hseq[s.Epoch], c04Body(r, s.Epoch, widHandler, hseq[s.Epoch]))
@@ -280,7 +280,7 @@ func c04World(t *testing.T, p c04Params) rt.Result {
 			time.Sleep(time.Duration(r.IntN(500)) * time.Millisecond)
 		}
 		time.Sleep(1400 * time.Millisecond) // let blocked writes drain so that Close is judged on its own
-		if last := conns[len(conns)-1]; p.Seed%2 == 0 && mon.Up() {
+		if last := conns[len(conns)-1]; mix(p.Seed)%2 == 0 && mon.Up() {
 			// Close arrives while the update handler is at work; the handler's write, made
 			// after the stop was requested, must still return
 			last.SendUpdate(updBody(last.ID, 0))
